@@ -217,6 +217,11 @@ func render(c Case) (map[string]string, map[string]error) {
 // Cases outside the asserted region (Result.Unspecified) are only checked for the latter.
 func Check(c Case) error {
 	res := Interpret(c)
+	if res.Unspecified == tooLarge {
+		// nested loops x slots can multiply a 40-node program into tens of megabytes of output
+		// (a legitimate but minutes-long render): outside the budget of this family
+		return nil
+	}
 	outs, errs := render(c)
 	if res.Unspecified == "" {
 		for _, entry := range []string{entryTemplate, entryFragment} {
@@ -550,3 +555,7 @@ func Size(c Case) (nodes, depth int) {
 	}
 	return
 }
+
+// TooLarge reports whether the case expands beyond the interpreter's step budget; callers that
+// render generated programs themselves (C09, C10, C12) skip such cases.
+func TooLarge(c Case) bool { return Interpret(c).Unspecified == tooLarge }
